@@ -101,7 +101,7 @@ func (g *gen) rule(group, id string) ruleSpec {
 		r.Iso = ""
 	}
 	if g.rng.Intn(40) == 0 && r.Role != "leader" {
-		r.Count = math.MaxInt64 - g.rng.Intn(2) // sums of counts overflow: at most an unnecessary rejection (counted)
+		r.Count = 1<<40 - g.rng.Intn(2) // huge but summable: pd adds counts without an overflow guard, sums beyond int64 are outside any real configuration
 	}
 	if g.rng.Intn(25) == 0 {
 		switch g.rng.Intn(7) {
